@@ -63,7 +63,7 @@ def history(seed, length, ncoll=3, nkeys=12, nvals=6):
                     log("beginw" if w else "beginr", c, exc_name(e))
                 continue
             st = coll[c]._backend._state
-            op = rnd.choice(["put"] * 5 + ["get"] * 3 + ["end"] * 2) if st == "writing" else rnd.choice(["get"] * 3 + ["end"] * 2 + (["put"] if ro[c] else []))
+            op = rnd.choice(["put"] * 5 + ["get"] * 3 + ["end"] * 2 + ["flush"]) if st == "writing" else rnd.choice(["get"] * 3 + ["end"] * 2 + (["put", "flush"] if ro[c] else []))
             if op == "put":
                 k, v = rnd.choice(list(keys)), rnd.choice(list(vals))
                 try:
@@ -71,6 +71,12 @@ def history(seed, length, ncoll=3, nkeys=12, nvals=6):
                     log("cput", c, "ok", k=k, v=v)
                 except Exception as e:
                     log("cput", c, exc_name(e), k=k, v=v)
+            elif op == "flush":
+                try:
+                    coll[c].flush()
+                    log("cflush", c, "ok")
+                except Exception as e:
+                    log("cflush", c, exc_name(e))
             elif op == "get":
                 k = rnd.choice(list(keys))
                 try:
